@@ -174,11 +174,11 @@ Definition run_line (l : bytes) : bytes :=
                       if is_req then
                         out3 (show_pres show_req (analyse_request data))
                              (if valid && wf_request hs then show_spec show_req (spec_request hs) else dash)
-                             (k_lists true hs || k_static15 items)
+                             (k_static15 items)
                       else
                         out3 (show_pres show_resp (analyse_response data))
                              (if valid && wf_response hs then show_spec show_resp (spec_response hs) else dash)
-                             (k_lists false hs || k_static15 items)
+                             (k_static15 items)
                     else bad
                 | None => bad
                 end
